@@ -231,7 +231,7 @@ def run(ctx):
             return rep.finish()
         witnesses(ctx, V_MID)
         n = replay_graph(ctx, V_SMALL, rep)                                            # every edge
-        n += replay_graph(ctx, V_MID, rep, max_walks=12000, check=False, label="v12_graph_sampled")
+        n += replay_graph(ctx, V_MID, rep, max_walks=8000, check=False, label="v12_graph_sampled")
         validate_recorded(ctx, V_MID, 800, rep)
         validate_recorded(ctx, V_BIG, 800, rep, max_events=80)
     rep.finish()
